@@ -94,9 +94,15 @@ func (s *vScenario) do(q vReq) (ok2xx, changed, listShown bool) {
 	body := q.body()
 	bodyOk, d := decodeAs(q.ep, body)
 	pre := s.a.users()
+	if s.a.cand == nil {
+		s.a.cand = map[string][]string{}
+	}
 	for _, p := range []string{d.password, d.oldpw, d.newpw} {
-		if p != "" {
-			s.a.pws[p] = true
+		if p != "" && !s.a.pws[p] {
+			s.a.cand[d.username] = append(s.a.cand[d.username], p)
+			if len(s.a.cand[d.username]) > 6 {
+				s.a.cand[d.username] = s.a.cand[d.username][len(s.a.cand[d.username])-6:]
+			}
 		}
 	}
 	pre = s.a.users()
